@@ -238,6 +238,7 @@ def run_case(drv, tmp, entry, opts, fail, fork_parent):
     saved_logger = {k: getattr(logger, k, Injected) for k in ("log", "priority", "facility", "syslogfunc")}
     saved_tb = GopherExceptions.tracebacks
     saved_enc = dict(mimetypes.encodings_map)
+    real_pkg.fileext.typemap.clear()      # fileext.init() only ever appends (same reset as the driver's init_process)
     kind, origin, excname = None, None, None
     try:
         ini.os, ini.ssl, ini.sighandlers, ini.open, ini.pygopherd = os_proxy, ssl_proxy, sig_proxy, fake_open, pkg_ns
@@ -249,6 +250,7 @@ def run_case(drv, tmp, entry, opts, fail, fork_parent):
                 ini.initialize(cfgpath)
             else:
                 cfg = patch_config(originals["init_config"](cfgpath))
+                logger.init(cfg)          # precondition of init_security in real life: the logger is set up
                 ini.init_security(cfg)
             kind = "running"
         except SystemExit:
